@@ -12,7 +12,7 @@
   see `hare_draws_in_contract`).  Every theorem holds for all profiles, seat numbers, configurations,
   previous gains and maximum seats (selector and distributor form) — no size bound anywhere.
 -/
-import VotelibProofs.Lemmas.STVRun
+import VotelibProofs.Lemmas.STVPrefix
 import VotelibModel.Gen.Quota
 namespace VL.C03
 open VL VL.STV
@@ -139,6 +139,26 @@ theorem exhausted_only_when_none_remains {E : Engine} (hE : EngineOK E) {cfg : C
     {bw : Ballot × Rat} (hbw : bw ∈ p) (hns : noShared bw.1 = true) :
     ∀ c ∈ ballotCands bw.1, c ∉ continuing st.alloc :=
   topCont_none_iff.mp (rests_with_top_continuing hE hr hf _ hp bw hbw hns).symm
+
+/-- The same for ballots that do have shared ranks further down: as long as a candidate ranked before the
+    first shared rank of the ballot continues, the paper rests with the first such candidate
+    (`strictPre b` = the ranks of `b` before its first shared rank). -/
+theorem rests_with_top_of_strict_prefix {E : Engine} (hE : EngineOK E) {cfg : Cfg} {inp : Input} {ds : List Draw}
+    {st : St} (hr : Reach E cfg inp ds st) (hf : st.final = false) :
+    ∀ hp ∈ st.alloc, ∀ bw ∈ hp.2, ∀ t, topCont (strictPre bw.1) (continuing st.alloc) = some t → hp.1 = some t :=
+  reach_restsPre hE hr hf
+
+/-- **A shared first rank divides the weight equally under fractional transfer.**  In the initial
+    allocation (Gregory), the weight of a ballot whose first rank is shared by the candidates `cs` (at least two,
+    distinct; ballots of the profile distinct, as the keys of a dict are) rests with each member of `cs` at
+    exactly `w / #cs` and with no other candidate.  `wP P a h` is the weight of the papers of class `P` in the
+    pile of `h`. -/
+theorem shared_first_rank_divides_equally {votes : Profile} (hnd : (votes.map (·.1)).Nodup) {cs : List Cand}
+    {rest : Ballot} {w : Rat} (hbw : (RankItem.shared cs :: rest, w) ∈ votes) (hcs : cs.Nodup) (hlen : 2 ≤ cs.length)
+    {ds ds' : List Draw} {a0 : Alloc} (h : initialAllocation gregory votes ds = .ok (a0, ds')) (c : Cand) :
+    pileTotal ((allocPile a0 (some c)).filter (fun bw => decide (bw.1 = RankItem.shared cs :: rest))) =
+      if c ∈ cs then w / (cs.length : Rat) else 0 :=
+  shared_first_split hnd hbw hcs hlen h c
 
 /-! ## election only by quota or last standing -/
 
@@ -313,6 +333,12 @@ def exCheck2 : Bool :=
   | .error _ => false
 
 example : exCheck2 = true := by decide +kernel
+/-- {a,b} > c ×5 divides into 5/2 for a and 5/2 for b -/
+def shVotes : Profile := [([.shared [0, 1], .one 2], 5), ([.one 2, .one 0], 3)]
+example : (match initialAllocation gregory shVotes [] with
+    | .ok (a0, _) => decide (pileTotal (allocPile a0 (some 0)) = 5 / 2) && decide (pileTotal (allocPile a0 (some 1)) = 5 / 2)
+        && decide (pileTotal (allocPile a0 (some 2)) = 3)
+    | .error _ => false) = true := by decide +kernel
 end Example
 
 end VL.C03
